@@ -101,8 +101,8 @@ Print Assumptions C11_disjoint_not_prefix.
 (* the update is applied as a whole or rejected as a whole *)
 
 Theorem C11_apply_all_or_error : forall d q u1 kv u2 up fs now s1,
-  apply_ops stub_match up now fs u1 (d, []) = Ok s1 ->
-  apply_ops stub_match up now fs [kv] s1 = Err ->
+  apply_ops the_matcher up now fs u1 (d, []) = Ok s1 ->
+  apply_ops the_matcher up now fs [kv] s1 = Err ->
   Apply d q (u1 ++ kv :: u2)%list up fs now = Err.
 Proof. exact (apply_rejects_as_a_whole _). Qed.
 Print Assumptions C11_apply_all_or_error.
@@ -112,7 +112,7 @@ Print Assumptions C11_apply_all_or_error.
 
 (* one of $set, $min, $max, $addToSet, $pull, $pullAll on one plain path *)
 Theorem C11_idempotent_single : forall d q k op ps v up fs now d1 ch1,
-  idem_operator stub_match k op -> plain ps -> canon_path (split_path ps) ->
+  idem_operator the_matcher k op -> plain ps -> canon_path (split_path ps) ->
   Apply d q [(k, VDoc [(ps, v)])] up fs now = Ok (d1, ch1) ->
   exists ch2, Apply d1 q [(k, VDoc [(ps, v)])] up fs now = Ok (d1, ch2).
 Proof. exact (apply_idempotent_single _). Qed.
@@ -120,7 +120,7 @@ Print Assumptions C11_idempotent_single.
 
 (* ... on any number of pairwise disjoint plain field paths *)
 Theorem C11_idempotent_list_partial : forall d q k op pairs up fs now d1 ch1,
-  idem_operator stub_match k op -> plain_pairs pairs -> field_pairs pairs ->
+  idem_operator the_matcher k op -> plain_pairs pairs -> field_pairs pairs ->
   pairwise_disjoint (map fst pairs) ->
   Apply d q [(k, VDoc pairs)] up fs now = Ok (d1, ch1) ->
   exists ch2, Apply d1 q [(k, VDoc pairs)] up fs now = Ok (d1, ch2).
@@ -145,7 +145,7 @@ Print Assumptions C11_unset_idempotent_list_partial.
    model: a.$[] next to a.1 (resolved paths do not conflict, the array grows),
    and conflicting paths whose first invocation is a no-op (never recorded) *)
 Theorem C11_idempotence_refuted :
-  ~ idempotent_for stub_match u_positional_and_index /\ ~ idempotent_for stub_match u_conflict_after_noop.
+  ~ idempotent_for the_matcher u_positional_and_index /\ ~ idempotent_for the_matcher u_conflict_after_noop.
 Proof. exact (idempotence_refuted _). Qed.
 Print Assumptions C11_idempotence_refuted.
 
@@ -318,7 +318,7 @@ Proof. vm_compute. reflexivity. Qed.
 
 Example C11_ex_set_hypotheses :
   plain "c.y" /\ canon_path (split_path "c.y") /\ field_path (split_path "c.y") /\
-  disjoint (split_path "c.y") (split_path "c.x") /\ idem_operator stub_match "$set" apply_set /\
+  disjoint (split_path "c.y") (split_path "c.x") /\ idem_operator the_matcher "$set" apply_set /\
   plain_pairs [("c.y", VInt32 7); ("a", VInt32 0)] /\ field_pairs [("c.y", VInt32 7); ("a", VInt32 0)] /\
   pairwise_disjoint (map fst [("c.y", VInt32 7); ("a", VInt32 0)]).
 Proof.
